@@ -146,9 +146,15 @@ def ZeroPreserving (s : Option Stage) : Prop := ∀ f, s = some f → ∀ a, IsZ
 inductive StageFn
   | chan (k : Nat)            -- MonochromaticReduction(color = red / green / blue)
   | chanAdd (k l : Nat)       -- "red+green"
+  | gray                      -- "gray" (default): cv2 RGB → gray, 0.299 R + 0.587 G + 0.114 B
+  | negKey                    -- "negative-key": 1 - min(1 - c) over the channels = the largest channel
   | affine (a b : Rat)        -- LinearModel(scaling, offset) / ScalingModel
   | clip (lo : Rat) (hi : Option Rat)  -- ClipModel
   deriving Repr
+
+/-- the documented gray value of an RGB pixel (ITU-R 601 weights, channel order R, G, B) -/
+def grayOf (p : Px) : Rat :=
+  (299 : Rat) / 1000 * listGetD p 0 0 + (587 : Rat) / 1000 * listGetD p 1 0 + (114 : Rat) / 1000 * listGetD p 2 0
 
 def clipR (lo : Rat) (hi : Option Rat) (x : Rat) : Rat :=
   let y := if x ≤ lo then lo else x
@@ -157,7 +163,33 @@ def clipR (lo : Rat) (hi : Option Rat) (x : Rat) : Rat :=
 def StageFn.eval : StageFn → Arr → Arr
   | .chan k, a => { scalar := true, px := a.px.map fun p => [listGetD p k 0] }
   | .chanAdd k l, a => { scalar := true, px := a.px.map fun p => [listGetD p k 0 + listGetD p l 0] }
+  | .gray, a => { scalar := true, px := a.px.map fun p => [grayOf p] }
+  | .negKey, a => { scalar := true, px := a.px.map fun p => [1 - (p.map (1 - ·)).foldl (fun m x => if x ≤ m then x else m) ((1 - p.headD 0))] }
   | .affine s o, a => { a with px := a.px.map fun p => p.map fun x => s * x + o }
   | .clip lo hi, a => { a with px := a.px.map fun p => p.map (clipR lo hi) }
+
+end Darsia.Pipeline
+
+namespace Darsia.Pipeline
+
+/-! ### integer images: promotion before the difference
+
+`ConcentrationAnalysis` converts unsigned-integer baselines and probes with `img_as(float)` (skimage: divide by the
+maximum of the type) *before* `_subtract_background`. -/
+
+/-- `skimage.img_as_float` on an unsigned `bits`-bit value -/
+def promote (bits n : Nat) : Rat := (n : Rat) / ((2 ^ bits - 1 : Nat) : Rat)
+
+/-- what numpy computes for `p - b` on unsigned `bits`-bit arrays without promotion (wrap-around) -/
+def wrapSub (bits p b : Nat) : Nat := (p + 2 ^ bits - b) % 2 ^ bits
+
+/-- `_subtract_background` on promoted integer images, element-wise -/
+def diffPromoted (bits : Nat) (o : DiffOpt) (base probe : List Nat) : List Rat :=
+  List.zipWith (fun p b => o.val (promote bits p) (promote bits b)) probe base
+
+/-- the threshold after processing the extra baselines one after the other (the loop of `find_cleaning_filter`
+on already reduced, scalar signals) -/
+def accumulate (n : Nat) (signals : List (List Rat)) : List Rat :=
+  signals.foldl (fun thr s => List.zipWith (fun t x => if t ≤ x then x else t) thr s) (List.replicate n 0)
 
 end Darsia.Pipeline
